@@ -75,7 +75,7 @@ func (p *pktConnect) Pack() []byte {
 		payload = appendString(payload, p.Will.Topic)
 		payload = appendBytes(payload, p.Will.Payload)
 	}
-	if p.UserName != "" {
+	if p.UserName != "" || p.Password != "" {
 		flag |= byte(connectFlagUserName)
 		payload = appendString(payload, p.UserName)
 	}
